@@ -143,16 +143,19 @@ fn c16_sign_magnitude_codec() {
     kani::cover!(u == 1u64 << 63, "negative zero");
 }
 
-// @harness prop=C16 tier=quick timeout=300 role=kf-offtout-i64-min
-// @bounds every i64 including i64::MIN (reachable through the public ControlEntry::new(.., seek_offset) -> ControlBlock::with_entries -> to_compressed, which validates sizes but not the seek offset)
+// @harness prop=C16 tier=quick timeout=300 role=regression-offtout-i64-min
+// @bounds every i64 including i64::MIN
 // @encodes cascette_formats::zbsdiff::utils::offtout, cascette_formats::zbsdiff::utils::offtin
-// @catches EXPECTED TO FAIL on the unchanged tree (genuine defect): 'attempt to negate with overflow' in offtout (debug) / assertion 'KF: offtout(i64::MIN) ...' (release: written as negative zero, read back as 0)
+// @catches regression of fix ed75ef7: offtout must not panic for any i64 (i64::MIN used to negate with overflow), and every value except i64::MIN (which has no sign-magnitude encoding and is rejected by ControlEntry::validate) must read back unchanged
 #[kani::proof]
 #[kani::unwind(10)]
 fn c16_kf_offtout_i64_min() {
     let v: i64 = kani::any();
     let b = zu::offtout(v);
-    assert!(zu::offtin(b) == v, "KF: offtout(i64::MIN) negates with overflow (panic in debug builds; in release builds the value is written as negative zero and read back as 0)");
+    if v != i64::MIN {
+        assert!(zu::offtin(b) == v, "offtout/offtin do not round-trip a representable value");
+    }
+    kani::cover!(v == i64::MIN, "i64::MIN reaches offtout without a panic");
 }
 
 // ---- hand-made patches: concrete structure, symbolic bytes ----------------------------------------------
